@@ -70,12 +70,60 @@ def Tok.isWs : Tok → Bool
   | .ws _ => true
   | _ => false
 
-/-- the body of a string literal: every backslash escapes the next character (only escapes that
-    `unescape` accepts without looking further: not `\u`, `\x`, octal), no unescaped quote -/
-def strBodyOk (q : Char) : Bool → List Char → Bool
-  | esc, [] => !esc
-  | true, c :: r => !(c = 'u' || c = 'x' || ('0'.toNat ≤ c.toNat && c.toNat ≤ '7'.toNat)) && strBodyOk q false r
-  | false, c :: r => if c = '\\' then strBodyOk q true r else c != q && strBodyOk q false r
+/-- four characters that `u16::from_str_radix(_, 16)` accepts (hex digits, the first may be `+`)
+    and their value -/
+def hex4 (a b c d : Char) : Option Nat :=
+  if (isHexDigit a || a = '+') && isHexDigit b && isHexDigit c && isHexDigit d then
+    some ((((if a = '+' then 0 else hexVal a) * 16 + hexVal b) * 16 + hexVal c) * 16 + hexVal d)
+  else none
+
+def octVal (c : Char) : Nat := c.toNat - '0'.toNat
+
+/-- The body of a string literal, escape by escape (`sur` = a `\uD8xx` surrogate waits for its
+    partner): no unescaped quote; `\uXXXX` with four hex digits, surrogates only as a high one
+    directly followed by a low one; `\xXX`; an octal escape takes as many of up to three octal
+    digits as follow and must fit a byte; any other character behind a backslash is fine
+    (`\n`, `\"`, `\q`).  This is what `utils::unescape` accepts. -/
+def strBodyOkF (q : Char) : Nat → Nat → List Char → Bool
+  | 0, _, _ => false
+  | _ + 1, sur, [] => sur == 0
+  | fuel + 1, sur, c :: r =>
+    if c = '\\' then
+      match r with
+      | [] => false
+      | d :: r1 =>
+        if d = 'u' then
+          match r1 with
+          | a :: b :: c2 :: e :: r2 =>
+            match hex4 a b c2 e with
+            | some v =>
+              match pushU16 sur v with
+              | some s => strBodyOkF q fuel s r2
+              | none => false
+            | none => false
+          | _ => false
+        else if sur != 0 then false
+        else if d = 'x' then
+          match r1 with
+          | a :: b :: r2 => (isHexDigit a || a = '+') && isHexDigit b && strBodyOkF q fuel 0 r2
+          | _ => false
+        else if isOct d then
+          match r1 with
+          | a :: r2 =>
+            if isOct a then
+              match r2 with
+              | b :: r3 =>
+                if isOct b then decide ((octVal d * 8 + octVal a) * 8 + octVal b ≤ 255) && strBodyOkF q fuel 0 r3
+                else strBodyOkF q fuel 0 (b :: r3)
+              | [] => true
+            else strBodyOkF q fuel 0 (a :: r2)
+          | [] => true
+        else strBodyOkF q fuel 0 r1
+    else c != q && sur == 0 && strBodyOkF q fuel 0 r
+
+/-- (the recursion is on a counter that starts above the length of the body; every step consumes at
+    least one character) -/
+def strBodyOk (q : Char) (sur : Nat) (body : List Char) : Bool := strBodyOkF q (body.length + 1) sur body
 
 /-- value of a decimal digit string -/
 def decVal (ds : List Char) : Nat := ds.foldl (fun v c => v * 10 + (c.toNat - '0'.toNat)) 0
@@ -88,7 +136,7 @@ def Tok.wf : Tok → Bool
     | c :: cs => isIdentStart c && cs.all isIdentCont
     | [] => false
   | .int ds => !ds.isEmpty && ds.all isDigit && decide (decVal ds < 340282366920938463463374607431768211456)
-  | .str q body => (q = '\'' || q = '"') && strBodyOk q false body
+  | .str q body => (q = '\'' || q = '"') && strBodyOk q 0 body
   | .op c => (singleOp c).isSome
   | .op2 a b => twoCharOp a b
 
@@ -329,11 +377,20 @@ def noPatIn (pat : List Char) : List Char → List Char → Bool
   | [], _ => true
   | c :: r, following => !startsWith pat (c :: r ++ following) && noPatIn pat r following
 
-/-- an unmarked opening side is not followed by a `-`/`+` (of the body, or the closing marker of an
-    empty body): it would be taken for the left marker -/
-def bodyStartOk (body : List Char) (l r : Mark) : Bool :=
-  l != .none || match body ++ r.src with
+/-- an unmarked opening side is not followed by a `-`/`+` (of the body, of the closing marker of an
+    empty body, or of an end delimiter such as `-->` behind an empty body): it would be taken for the
+    left marker -/
+def bodyStartOk (body : List Char) (l r : Mark) (e : List Char) : Bool :=
+  l != .none || match body ++ (r.src ++ e) with
     | c :: _ => !isMarkChar c
+    | [] => true
+
+/-- an unmarked closing side of a variable / block / raw tag: the end delimiter with what follows is
+    not read as "marker, end delimiter" (`--` followed by the text `-x` would be: the lexer, like
+    Jinja2, prefers the marked reading) -/
+def closeOk (e : List Char) (r : Mark) (fol : List Char) : Bool :=
+  r != .none || match e ++ fol with
+    | c :: rest => !(isMarkChar c && startsWith e rest)
     | [] => true
 
 /-- an unmarked closing side is not preceded by a `-`/`+` of the body -/
@@ -376,20 +433,26 @@ def Tag.marker (g : Tag) : Marker :=
 
 /-- the tag reads back as written.
     * variable / block tag: the interior is a well-formed token list in which the tag does not
-      end early (`interiorOk`), an unmarked opening side is not followed by `-`/`+`, and a block
-      tag is not `raw`;
-    * comment: the body does not contain the comment end, a body character next to an unmarked
-      side is not itself `-`/`+` (it would be taken for the marker), and an empty body has no marker
-      on the closing side only (`{#-#}` is a comment with a *left* marker). -/
+      end early (`interiorOk`), an unmarked opening side is not followed by `-`/`+`, an unmarked
+      closing side is not read as a marked one (`closeOk`; only matters for end delimiters that
+      begin with `-`/`+`), and a block tag is not `raw`;
+    * comment: the body does not contain the comment end, a character next to an unmarked side is
+      not itself `-`/`+` (it would be taken for the marker), and an empty body has no marker on the
+      closing side only (`{#-#}` is a comment with a *left* marker);
+    * raw block: the unmarked closing sides of `{% raw %}` and `{% endraw %}` are not read as marked
+      ones. -/
 def tagOk (d : Delims) (g : Tag) (following : List Char) : Bool :=
   match g.kind with
-  | .var ts => interiorOk d.ve 0 ts (g.r.src ++ (d.ve ++ following)) && bodyStartOk (srcs ts) g.l g.r
+  | .var ts =>
+    interiorOk d.ve 0 ts (g.r.src ++ (d.ve ++ following)) && bodyStartOk (srcs ts) g.l g.r d.ve &&
+      closeOk d.ve g.r following
   | .block ts =>
-    interiorOk d.be 0 ts (g.r.src ++ (d.be ++ following)) && bodyStartOk (srcs ts) g.l g.r &&
+    interiorOk d.be 0 ts (g.r.src ++ (d.be ++ following)) && bodyStartOk (srcs ts) g.l g.r d.be &&
+      closeOk d.be g.r following &&
       !startsWith rawName ((srcs ts ++ (g.r.src ++ (d.be ++ following))).dropWhile isAsciiWs)
   | .comment body =>
-    noPatIn d.ce (body ++ g.r.src) (d.ce ++ following) && bodyStartOk body g.l g.r && bodyEndOk body g.r
-  | .raw _ _ _ _ => true
+    noPatIn d.ce (body ++ g.r.src) (d.ce ++ following) && bodyStartOk body g.l g.r d.ce && bodyEndOk body g.r
+  | .raw c ri _ _ => closeOk d.be ri (c ++ (g.rawClose d ++ following)) && closeOk d.be g.r following
   | .lineStmt ts =>
     !d.ls.isEmpty && g.l == .none && g.r == .none && lineInteriorOk 0 ts following && lineFollow following
   | .lineComment body =>
@@ -420,14 +483,17 @@ def delimFree (d : Delims) (tm : Tmpl) : Bool := tailFree d true tm.head tm.tail
 
 /-! ## well-formed delimiter sets (hypothesis of the general theorems) -/
 
-/-- first character of an end delimiter: cannot be taken for part of the tag interior or a marker -/
+/-- first character of a variable / block end delimiter is not ASCII whitespace: blanks inside a tag
+    are skipped before the end delimiter is looked for, an end delimiter that begins with one is
+    never found (every tag is then a syntax error) -/
 def headOk : List Char → Bool
   | [] => false
-  | c :: _ => !isAsciiWs c && !isIdentCont c && c != '-' && c != '+'
+  | c :: _ => !isAsciiWs c
 
-/-- last character of an end delimiter is not whitespace -/
+/-- an end delimiter ends in a character that is not whitespace, possibly followed by horizontal
+    whitespace (`%} `); it does not end in a line break -/
 def lastOk (e : List Char) : Bool :=
-  match e.reverse with
+  match e.reverse.dropWhile isHws with
   | [] => false
   | c :: _ => !isWs c
 
@@ -436,7 +502,7 @@ def startOk : List Char → Bool
   | [] => false
   | c :: _ => !isWs c
 
-/-- the last character of a start delimiter is not a line break -/
+/-- the last character of a line statement / line comment prefix is not a line break -/
 def endNotNl (p : List Char) : Bool :=
   match p.reverse with
   | [] => false
@@ -446,13 +512,18 @@ def nodupB : List (List Char) → Bool
   | [] => true
   | p :: r => !r.contains p && nodupB r
 
+/-- a line statement / line comment prefix -/
+def Marker.isLine (m : Marker) : Bool := m == .lineStmt || m == .lineComment
+
 /-- delimiter sets covered by the general theorems: pairwise distinct non-empty start delimiters
-    (line prefixes included when set) that do not begin with whitespace or end in a line break, end
-    delimiters that begin
-    with a character that is neither whitespace, an identifier character nor a marker and do not
-    end in whitespace -/
+    (line prefixes included when set) that do not begin with whitespace; line prefixes that do not
+    end in a line break; non-empty end delimiters whose last character that is not horizontal
+    whitespace is not a line break (`%}`, `%} `; not `%}\n`); variable and block end delimiters that
+    do not begin with ASCII whitespace.  End delimiters may begin with `-`, `+`,
+    a digit, a letter, a quote, an operator … (`-->`, `+}`, `1>`, `end`), the comment end also with
+    whitespace. -/
 def goodDelims (d : Delims) : Bool :=
-  (startPats d).all (fun mp => startOk mp.2 && endNotNl mp.2) && nodupB ((startPats d).map (·.2)) &&
-    headOk d.ve && headOk d.be && headOk d.ce && lastOk d.ve && lastOk d.be && lastOk d.ce
+  (startPats d).all (fun mp => startOk mp.2 && (!mp.1.isLine || endNotNl mp.2)) && nodupB ((startPats d).map (·.2)) &&
+    headOk d.ve && headOk d.be && !d.ce.isEmpty && lastOk d.ve && lastOk d.be && lastOk d.ce
 
 end MJ.Lexer
